@@ -244,6 +244,18 @@ CHECKS["C16"] = {
     ],
 }
 
+CHECKS["C15"] = {
+    "engine": "simnet",
+    "level": "exploration",
+    "technique": "property-based testing (rapid) of dual.New over two simulated networks with address classes known by construction; differential oracle against the two inner DHTs and an address-scoping invariant over both simulation logs",
+    "level_text": "Generated WAN/LAN networks, routing-table emptiness, host address sets and operations run against the real dual DHT built with dual.New (so the option layering really installs the filters); the oracle checks which network saw the "
+                  "write RPCs, compares reads with the inner DHTs' own results, and checks every WAN request target, stored address and advertised address against the address classes. Exploration.",
+    "level_note": "Address classes are public/private by construction (ambiguous classes such as CGNAT or DNS are not generated); seeds get a harness-made public connection address; both inner DHTs share one fake host as in production.",
+    "parts": [
+        {"part": "dual", "pkg": "./dual/", "test": "TestVerif_C15_Dual", "quick": 1200, "thorough": 20000},
+    ],
+}
+
 MANIFEST_HEAD = {
     "version": 1,
     "setup_cmd": "bin/check --setup",
